@@ -20,6 +20,9 @@ func init() {
 				Quick: map[string]int{"hmax": 2, "mixedpool": 1, "maporder": 1}, Thorough: map[string]int{"hmax": 3, "mixedpool": 1, "maporder": 2},
 				Reach:     []string{"history through the gateway"},
 				Functions: []string{"(*Gateway).queryHandler", "(*Gateway).parseIntrospectionQuery", "planner.(*CachedPlanner).Plan", "planner.routeSelectionSet"}},
+			{Name: "introspection-history-on-cached-plans", Pkg: ".", Files: []string{"root/fed.go", "root/c01.go", "root/c16.go"}, Entry: "VerifIntrospectionHistory", Mode: "seq",
+				Quick: map[string]int{"hmax": 2}, Thorough: map[string]int{"hmax": 3},
+				Reach: []string{"history answered"}, Functions: []string{"(*Gateway).queryHandler", "(*Gateway).parseIntrospectionQuery", "planner.(*CachedPlanner).Plan", "planner.(*CachedPlanner).hash", "introspection.(*IntrospectionResolver).*"}},
 			{Name: "subscriptions-on-cached-plan", Pkg: ".", Files: []string{"root/fed.go", "root/c01.go", "root/ws.go", "root/c17.go"}, Entry: "VerifEvents", Mode: "seq",
 				Quick: map[string]int{"cached": 1, "maxsubs": 2, "maxevents": 1, "quickmerge": 0}, Thorough: map[string]int{"cached": 1, "maxsubs": 2, "maxevents": 2, "quickmerge": 0},
 				Reach:     []string{"two subscriptions", "events checked"},
